@@ -798,7 +798,6 @@ func runCase(idx int, args sim.Args, r *sim.Rand, flows []flowSpec, txns []txn, 
 	}
 }
 
-
 // concurrentPhase: the same transactions are pushed through the engine from several goroutines at
 // once; hook events carry the transaction id, so every transaction's applied set is still known. It
 // must equal what the same engine instance applies to that transaction when it runs alone.
